@@ -1,2 +1,3 @@
 # name, flavour, extra cxxflags, extra ldflags, extra objects
 $(eval $(call HARNESS,c06_abi,asan,,,))
+$(eval $(call HARNESS,c06,asan,-Ihostexec,-lrapidcheck,$(HOSTEXEC_OBJS)))
